@@ -396,20 +396,20 @@ PROPS["C19"] = {
                    "visit each element once. collaborative_call_once: 2-3 external threads (each with its implicit arena) arrive at one flag on the real scheduler; the function throws on a leg-chosen subset of attempts and optionally runs a task_group so that waiters moonlight; oracle: one successful completion, callers return after it and (happens-before clocks) see its effects, each exception reaches exactly one caller, the flag retries / stays done.",
     "legs": [
         leg("ets-fresh3", "c19_ets", (2, 3), {"n": 3}, what="three first accesses on an empty container (third triggers growth)"),
-        leg("ets-pre2", "c19_ets", (2, 3), {"pre": 2, "n": 2}, what="two registered, two new (growth at the third)"),
-        leg("ets-pre4", "c19_ets", (2, 3), {"pre": 4, "n": 2}, what="four registered, two new (growth at the fifth)"),
+        leg("ets-pre2", "c19_ets", (3, 4), {"pre": 2, "n": 2}, what="two registered, two new (growth at the third)"),
+        leg("ets-pre4", "c19_ets", (3, 4), {"pre": 4, "n": 2}, what="four registered, two new (growth at the fifth)"),
         leg("ets-pre2-n3", "c19_ets", (2, 2), {"pre": 2, "n": 3}, what="two registered, three new"),
-        leg("ets-key", "c19_ets", (2, 3), {"kind": "ets_key", "pre": 2, "n": 2}, what="ets_key_per_instance (native TLS key) variant"),
+        leg("ets-key", "c19_ets", (3, 4), {"kind": "ets_key", "pre": 2, "n": 2}, what="ets_key_per_instance (native TLS key) variant"),
         leg("ets-park5", "c19_ets", (1, 1), {"kind": "ets_park", "n": 5, "park": 5}, what="five first accesses that are all between reading the table root and publishing their own array when the window opens (threads parked inside the user allocator): arrays of 4, 4, 8, 8 and 16 slots race for the root", weight=3.0),
         leg("ets-park3", "c19_ets", (2, 3), {"kind": "ets_park", "n": 3, "park": 3}, what="three parked first accesses"),
         leg("ets-park-pre2", "c19_ets", (2, 3), {"kind": "ets_park", "pre": 2, "n": 3, "park": 3}, what="two registered threads, three parked first accesses"),
-        leg("ets-moved-2+3", "c19_ets", (1, 2), {"pre": 2, "n": 3, "moved": 1}, what="two threads registered in a container that is then move-constructed into a new one; three new first accesses there (the table of 4 must grow at the third element)"),
+        leg("ets-moved-2+3", "c19_ets", (2, 3), {"pre": 2, "n": 3, "moved": 1}, what="two threads registered in a container that is then move-constructed into a new one; three new first accesses there (the table of 4 must grow at the third element)"),
         leg("ets-moved-4+5", "c19_ets", (1, 1), {"pre": 4, "n": 5, "moved": 2}, what="four registered, container move-assigned, five new first accesses (table of 8 fills up)", weight=2.0),
-        leg("ets-moved-key", "c19_ets", (1, 2), {"kind": "ets_key", "pre": 2, "n": 3, "moved": 2}, what="ets_key_per_instance: move assignment then three new first accesses"),
-        leg("ets-move", "c19_ets", (2, 3), {"kind": "swap", "mode": 1}, what="a = std::move(b): the thread-to-element mapping travels with the contents"),
-        leg("ets-swap", "c19_ets", (2, 3), {"kind": "swap", "mode": 0}, what="contents exchanged by three moves"),
-        leg("ets-key-move", "c19_ets", (2, 3), {"kind": "swap_key", "mode": 1}, what="ets_key_per_instance: move assignment must carry the native TLS key"),
-        leg("ets-key-swap", "c19_ets", (2, 3), {"kind": "swap_key", "mode": 0}, what="ets_key_per_instance: exchange by three moves"),
+        leg("ets-moved-key", "c19_ets", (2, 3), {"kind": "ets_key", "pre": 2, "n": 3, "moved": 2}, what="ets_key_per_instance: move assignment then three new first accesses"),
+        leg("ets-move", "c19_ets", (3, 4), {"kind": "swap", "mode": 1}, what="a = std::move(b): the thread-to-element mapping travels with the contents"),
+        leg("ets-swap", "c19_ets", (3, 4), {"kind": "swap", "mode": 0}, what="contents exchanged by three moves"),
+        leg("ets-key-move", "c19_ets", (3, 4), {"kind": "swap_key", "mode": 1}, what="ets_key_per_instance: move assignment must carry the native TLS key"),
+        leg("ets-key-swap", "c19_ets", (3, 4), {"kind": "swap_key", "mode": 0}, what="ets_key_per_instance: exchange by three moves"),
         sweep("ets-clear", "c19_ets", (1, 2), [{"kind": k, "mode": m} for k in ("clear", "clear_key") for m in (0, 1, 2)], what="two threads use a container, the contents are cleared (clear() / copy assignment from an empty / from a used container), the same threads use it again: their next local() is a first use (fresh element, one initialiser call each, exists == false); default and ets_key_per_instance (native TLS key) variants", tiers=("quick", "thorough")),
         leg("combinable", "c19_ets", (2, 2), {"kind": "comb", "pre": 2, "n": 3}, what="combinable: combine / combine_each"),
         leg("once-2", "c19_once", (2, 3), {"callers": 2, "mask": 0}, flags=("-fp", "-hb"), what="two callers, no exception", weight=2.0),
